@@ -97,6 +97,8 @@ def run_task(task):
                 d["model"] = _jsonable(d.get("model"))
                 return d
 
+            if task.get("only"):
+                obls = [o for o in obls if task["only"] in o.name]
             fan = int(task.get("fanout", 1))
             if fan <= 1 or len(obls) < 2 * fan:
                 out["results"] = [discharge_one(o) for o in obls]
@@ -129,7 +131,9 @@ def run_task(task):
                 out["results"].append(d)
                 # canary: the hypotheses of each lemma obligation must be satisfiable (only an `unsat` answer matters)
                 if hyps:
-                    cn = solve.discharge(Obl(name=f"lemma:{lem.name}/{nm}/canary", hyps=list(hyps), goal=z3.BoolVal(False), props=lem.props, kind="canary"),
+                    # grouped per lemma (one name): an exhaustive case split legitimately contains impossible cases; the lemma is vacuous only if
+                    # the hypotheses of ALL its obligations are contradictory
+                    cn = solve.discharge(Obl(name=f"lemma:{lem.name}/canary", hyps=list(hyps), goal=z3.BoolVal(False), props=lem.props, kind="canary"),
                                          timeout_ms=task["timeout_ms"])
                     out["results"].append(cn.to_dict())
         elif task["kind"] == "bounded":
@@ -463,4 +467,13 @@ def build_evidence(args, P, seed, wall, n_obl, n_dis, by_backend, solver_s, samp
 
 
 if __name__ == "__main__":
-    sys.exit(main())
+    try:
+        rc = main()
+    except SystemExit:
+        raise
+    except BaseException:
+        # a crash of the checker itself (import error in a contract file, bug in the engine) is exit 3, never 1: a traceback is not a violation
+        traceback.print_exc()
+        print("CHECKER-BROKEN the checker crashed (traceback above); no verdict")
+        rc = 3
+    sys.exit(rc)
